@@ -2789,9 +2789,10 @@ BD_Shape<T>::simplify_using_context_assign(const BD_Shape& y) {
       }
     }
   }
-  // This point should be unreachable.
-  PPL_UNREACHABLE;
-  return false;
+  // With exact coefficients this point is unreachable; with rounded or
+  // saturated closures `target' may not be reached: in such a case
+  // `x' is left as it is (a correct, though not simplified, result).
+  return bool_result;
 }
 
 template <typename T>
